@@ -309,10 +309,10 @@ Definition write_add (x0 : ctx) (w0 : world) : res bool * ctx * world :=
       let '(rb, xb, wb) := buffer_frame xa msg w0 in
       match rb with
       | RErr (EWriteBufferFull f') => (ROk false, set_additional xb f', wb)
-      | RErr e => (RErr e, xb, wb)
+      | RErr e => (RErr e, set_unflushed xb true, wb)
       | RPanic s => (RPanic s, xb, wb)
       | ROutOfFuel => (ROutOfFuel, xb, wb)
-      | ROk _ => (ROk true, xb, wb)
+      | ROk _ => (ROk true, set_unflushed xb true, wb)
       end
   | None => (ROk (x_unflushed x0), x0, w0)
   end.
@@ -351,6 +351,13 @@ Proof.
   - right. split; auto.
 Qed.
 
+Lemma WS_set_unflushed nf x w ro x' w' b :
+  WS nf x w ro x' w' -> WS nf x w ro (set_unflushed x' b) w'.
+Proof.
+  intros (qe & evs & H). exists qe, evs.
+  cbn [set_unflushed x_role x_additional x_state x_codec]. exact H.
+Qed.
+
 Lemma write_add_spec x w r x' w' : write_add x w = (r, x', w') -> WS [] x w (err_of r) x' w'.
 Proof.
   unfold write_add. intros H. destruct (x_additional x) as [msg|] eqn:Ea.
@@ -365,19 +372,20 @@ Proof.
     + apply Pres_repark_Clean, Ho.
     + apply Pres_repark_Pend, Ho.
     + right. split; auto.
-  - assert (G : (err_of r, x', w') = (err_of rb, xb, wb)).
-    { destruct rb as [[]|e|p|]; try (injection H as <- <- <-; reflexivity).
-      destruct e; try (injection H as <- <- <-; reflexivity).
+  - assert (HW : WS [] x w rb xb wb).
+    { exists [f1], (EvQueue f1 :: evs). rewrite Ea, Ha. splits.
+      + rewrite Hl. reflexivity.
+      + cbn. rewrite Hq. reflexivity.
+      + destruct He as [A B]. split; cbn; assumption.
+      + exact Hr.
+      + apply Pres_move_Clean, Ho.
+      + apply Pres_move_Pend, Ho.
+      + exact Hw. }
+    assert (G : err_of r = rb /\ w' = wb /\ (x' = xb \/ x' = set_unflushed xb true)).
+    { destruct rb as [[]|e|p|]; try (injection H as <- <- <-; cbn [err_of]; auto).
+      destruct e; try (injection H as <- <- <-; cbn [err_of]; auto).
       exfalso. eapply Hn. reflexivity. }
-    injection G as -> -> ->. rewrite err_of_unit.
-    exists [f1], (EvQueue f1 :: evs). rewrite Ea, Ha. splits.
-    + rewrite Hl. reflexivity.
-    + cbn. rewrite Hq. reflexivity.
-    + destruct He as [A B]. split; cbn; assumption.
-    + exact Hr.
-    + apply Pres_move_Clean, Ho.
-    + apply Pres_move_Pend, Ho.
-    + exact Hw.
+    destruct G as (-> & -> & [->| ->]); [exact HW|]. apply WS_set_unflushed, HW.
 Qed.
 
 Lemma role_eqb_server r : role_eqb r Server = true -> r = Server.
